@@ -68,7 +68,9 @@ def counter_init_zero(f: FuncInfo, name: str, before_line: int) -> bool:
 
 
 def check_slim_counter(ctx, rule: str, S: Summary, counter: str, masks: List[str], guard_ok=None, shape=None,
-                       must_index: Optional[List[str]] = None, inner_extra: int = 0, what: str = "slim index") -> bool:
+                       must_index: Optional[List[str]] = None, inner_extra: int = 0, what: str = "slim index", dims: int = 2) -> bool:
+    if dims == 1:
+        return _check_slim_counter_1d(ctx, rule, S, counter, masks, what)
     """Typestate of one slim counter in kernel S.func.
     masks: accepted names of the mask array whose unmasked pixels are enumerated (the guard must read it at the loop indices).
     guard_ok(cond, a, b) -> bool may accept repository-specific guard variants (flag comparison, second mask).
@@ -154,4 +156,49 @@ def check_slim_counter(ctx, rule: str, S: Summary, counter: str, masks: List[str
                     ok = False
     if ok:
         ctx.ob(rule, inst, True, detail={"counter": counter, "nests": len(nests), "masks": masks})
+    return ok
+
+
+def _check_slim_counter_1d(ctx, rule, S, counter, masks, what) -> bool:
+    f = S.func
+    inst = f"{f.key}:{counter}"
+    incs = counter_increments(S, counter)
+    if len(incs) != 1:
+        ctx.ob(rule, inst, False if incs else None, where=f, node=incs[1][4] if len(incs) > 1 else f.node,
+               message=f"{what} counter '{counter}' must be advanced exactly once in its traversal (found {len(incs)})")
+        return False
+    v, op, guards, loops, node = incs[0]
+    ok = op == "+=" and v == ONE and len(loops) == 1 and is_axis_loop(loops[0], masks, 0)
+    if not ok:
+        ctx.ob(rule, inst, False, where=f, node=node, construct="; ".join(repr(l) for l in loops),
+               message=f"{what} counter '{counter}' must advance by 1 inside 'for a in range(M.shape[0])' over the full 1-D mask")
+        return False
+    a = Poly.sym(loops[0].var)
+    flat = real_guards(guards)
+    good = False
+    if len(flat) == 1:
+        c = flat[0]
+        for m in masks:
+            el = Poly.elem(m, a)
+            if c.kind == "not" and c.args[0].kind == "truth" and c.args[0].args[0] == el:
+                good = True
+    if not good:
+        ctx.ob(rule, inst, False, where=f, node=node, construct="; ".join(repr(c) for c in flat),
+               message=f"{what} counter '{counter}' must be guarded by exactly `not M[a]` at the loop index")
+        return False
+    if not counter_init_zero(f, counter, loops[0].node.lineno):
+        ctx.ob(rule, inst, False, where=f, node=loops[0].node, message=f"{what} counter '{counter}' is not initialised to 0 before its traversal")
+        return False
+    kat = Poly.sym(counter + "~")
+    ok = True
+    for s in S.stores:
+        if not s.loops or s.loops[0] is not loops[0]:
+            continue
+        uses = [i for i, x in enumerate(s.idx) if counter + "~" in {at[1] for at in x.all_atoms() if at[0] == "s"}]
+        if uses and (any(s.idx[i] != kat for i in uses) or {c.key() for c in real_guards(s.guards)} != {c.key() for c in flat}):
+            ctx.ob(rule, inst + ":" + s.arr, False, where=f, node=s.node, construct=f"{s.arr}[{', '.join(map(repr, s.idx))}]",
+                   message=f"store indexed by '{counter}' must use its pre-increment value under the same guard")
+            ok = False
+    if ok:
+        ctx.ob(rule, inst, True, detail={"counter": counter, "dims": 1})
     return ok
